@@ -46,7 +46,8 @@ pub fn workbook(b: &Value) -> Value {
     let table = json!([{"file": "table1.xml", "target": cfg["target"], "xml": tx}]);
     let merges = |m: &Value| -> Vec<String> { m.as_array().unwrap().iter().map(|x| ref_text(p2(&x["a"]), p2(&x["b"]))).collect() };
     let tsheet = cfg["sheet"].as_u64().unwrap();
-    json!({"sheets": [
+    // cfg.prefix: namespace prefix on every spreadsheetml element of the workbook and sheet parts
+    json!({"prefix": cfg["prefix"].as_str().unwrap_or(""), "sheets": [
         {"name": "S1", "file": "sheet1.xml", "tokens": grid_tokens(false), "merge": merges(&b["merges1"]), "tables": if tsheet == 1 { table.clone() } else { json!([]) }},
         {"name": "S2", "file": "sheet2.xml", "tokens": grid_tokens(cfg["s2empty"].as_bool().unwrap()), "merge": merges(&b["merges2"]), "tables": if tsheet == 2 { table } else { json!([]) }},
     ]})
@@ -57,6 +58,10 @@ fn dims_json(d: &Dimensions) -> Value {
 }
 
 fn table_data_diff(ideal: &Value, r: &Range<Data>) -> Option<String> {
+    if ideal["start"] == json!([]) {
+        // a table without data rows
+        return if r.start().is_none() { None } else { Some(format!("data bounds {:?}..{:?}, expected an empty range", r.start(), r.end())) };
+    }
     let s = p2(&ideal["start"]);
     let e = p2(&ideal["end"]);
     if r.start() != Some(s) || r.end() != Some(e) {
@@ -102,7 +107,7 @@ fn check(bytes: &[u8], b: &Value) -> Result<(), String> {
         let tr = wb.table_by_name_ref("T1").map_err(|e| format!("table_by_name_ref: {}", e))?;
         let conv: Range<Data> = {
             let d = tr.data();
-            let mut out = Range::new(d.start().unwrap_or((0, 0)), d.end().unwrap_or((0, 0)));
+            let mut out = match (d.start(), d.end()) { (Some(a), Some(b)) => Range::new(a, b), _ => Range::empty() };
             if let Some(s) = d.start() {
                 for (r, c, v) in d.cells() {
                     out.set_value((s.0 + r as u32, s.1 + c as u32), Data::from(v.clone()));
